@@ -8,7 +8,8 @@ from fractions import Fraction
 
 import common
 from common import zl, ql, bl, lst, zlist, qlist, frac
-from translate import Anchors
+from props.C11 import norm
+from translate import Anchors, Untranslatable
 
 PID = "C02"
 UT = "acryo/_utils.py"
@@ -19,6 +20,13 @@ def _append_arg(name):
 
 
 def anchors(a: Anchors):
+    def box_rule(fn, src):
+        t = norm(ast.unparse(fn))
+        if "ifoutput_shapeisNone:ifisinstance(self.output_shape,Unset):raiseValueError('Outputshapeisunknown.')_output_shape=self.output_shapeelse:_output_shape=_misc.normalize_shape(output_shape,ndim=3)return_output_shape" in t:
+            return ("(* box of a call: the shape given to the call if any, else the loader's own, else an error (None) *)\n"
+                    "Definition call_box (given own : option (Z * Z * Z)) : option (Z * Z * Z) :=\n  match given with Some s => Some s | None => own end.")
+        raise Untranslatable("_get_output_shape not recognised")
+    a.raw("call_box", "acryo/loader/_base.py", "LoaderBase._get_output_shape", "which box a load uses: per-call shape, else the loader's default, else ValueError", box_rule)
     a.func("make_slice_and_pad", UT, "make_slice_and_pad", {"z0": "Z", "z1": "Z", "size": "Z"})
     for fn, pre in (("prepare_affine", "pa"), ("prepare_affine_cornersafe", "pac")):
         p0 = {"c": "Q", "s": "Z", "order": "Z"} if pre == "pa" else {"c": "Q", "half_len": "Q", "order": "Z"}
